@@ -89,6 +89,11 @@ CHECKS = {
             "Generated-input search over multi-record inputs x chunked readers; every public field of every record is compared with the model; faults (orphan block, bad dependency, bad location, I/O error at each read) must fail the read as a whole.",
             "Trusts M-scan; dependency items / locations come from fixed valid and invalid pools (C19 decides their validity).",
             "pbt"),
+    "C17": ("DESIGN.md section 4 / C17",
+            "robustness fuzzing with proptest: arbitrary bytes, grammar-derived documents and mutations of valid documents at eleven byte-level targets covering every public entry point, panic capture and a watchdog; call-sequence interpreter for Summary",
+            "Generated-input search for panics and hangs: every entry point that takes external text or bytes is driven with arbitrary, grammar-derived and mutated inputs (<= 4 KiB); a panic is caught and reported with message and location, a case exceeding the 20 s watchdog is confirmed in isolation before it counts.",
+            "Inputs above 4 KiB, brace patterns above 1024 expansions (cost exponential by specification) and unreadable directories are not explored; time is a signal only through the watchdog with in-isolation confirmation.",
+            "pbt"),
     "C18": ("DESIGN.md section 4 / C18",
             "property-based testing with an inverse (split/rebuild) oracle and metamorphic probes of the revision through the comparison operators",
             "Generated-input search over package-name strings (many '-', 'nb' in base / repeated / with up to 18 digits); the reported revision is cross-examined through >=, <=, >, < patterns, and the pkg_summary accessors are compared.",
